@@ -19,6 +19,7 @@ partial def asPV (j : Json) : R PV := do
   | "float" => pure (.float (← getNat j "v"))
   | "str" => pure (.str (← getStr j "v"))
   | "np" => pure (.npScalar (← getInt j "v"))
+  | "npx" => pure (.npExotic (← getStr j "dtype") (← getInt j "v"))
   | "arr" => pure (.arr (← getStr j "dtype") (← getNats j "shape") (← getInts j "strides") (← getInt j "offset")
                         (← getInts j "mem"))
   | "list" => do
@@ -48,6 +49,7 @@ partial def jPV : PV → Json
   | .float f => Json.mkObj [("t", "float"), ("v", jNat f)]
   | .str s => Json.mkObj [("t", "str"), ("v", Json.str s)]
   | .npScalar i => Json.mkObj [("t", "np"), ("v", jInt i)]
+  | .npExotic d i => Json.mkObj [("t", "npx"), ("dtype", Json.str d), ("v", jInt i)]
   | .arr d sh st off mem =>
     -- `items`: the elements in row-major order (for an array that came back: its buffer)
     Json.mkObj [("t", "arr"), ("dtype", Json.str d), ("shape", jNats sh), ("strides", jInts st),
